@@ -102,9 +102,9 @@ def pairs(P, R, f):
             v = astq.trace(f, s.value)
             ok = False
             detail = norm(v) if isinstance(v, ast.AST) else str(v)
-            if isinstance(v, ast.Subscript) and isinstance(v.value, ast.Name) and isinstance(v.slice, ast.Name):
-                cand, mask = v.value.id, v.slice.id
-                md = astq.trace(f, v.slice)
+            if isinstance(v, ast.Subscript) and isinstance(v.value, ast.Name) and isinstance(v.slice, (ast.Name, ast.Call)):
+                cand = v.value.id
+                md = astq.trace(f, v.slice) if isinstance(v.slice, ast.Name) else v.slice
                 cd = astq.trace(f, v.value)
                 ok_mask = isinstance(md, ast.Call) and isinstance(md.func, ast.Attribute) and md.func.attr == 'intersects' \
                     and astq.arg_of(md, pos=1, kw='inds') is not None and norm(astq.arg_of(md, pos=1, kw='inds')) == cand
